@@ -596,7 +596,7 @@ func (r *isoRun) run(b Behaviour, idx int) {
 		}
 		// the touched database against the specification
 		o := r.observe(d)
-		if want := asInt(asMap(st.State["contents"])[dn]); o.Len != want {
+		if want := asInt(asMap(st.State["contents"])[dn]); len(st.State) > 0 && !d.poisoned && o.Len != want {
 			r.res.note("%s step %d: database %s holds %d entries, specification %d", b.ID, si, dn, o.Len, want)
 		}
 	}
